@@ -374,7 +374,7 @@ SPECS["C17"] = {
 # biases the generator.  `server_part(...)` builds a part for any of them.
 
 SRV_HDR = HDR.format(mods="Transport TimerWheel Server ServerMon Checks.{chk}")
-SRV_TB = [
+SRV_TB = AUDIT_TB + [
     "server model: tokio bounded mpsc (FIFO permit waiters; a permit returns when the receiver pops), tokio "
     "unbounded mpsc, futures Abortable (abort flag checked before the inner future is polled), Fuse, tokio-util "
     "DelayQueue at millisecond granularity (a timer is due when clock >= start + when_ms) are modelled, not "
@@ -614,7 +614,16 @@ SPECS["C04"] = _server_spec(
 # ---------------------------------------------------------------------------------------------
 # Client-side parts: one driver (harness `cli`), one model (Client.v), one monitor fold
 # (ClientMon.v); each property has its own Checks module selecting its verdict.
-CLIENT_TB = [
+AUDIT_TB = [
+    "fidelity audit of the hand-written models against the sources: AUDIT.md (function-by-function tables, every `?` "
+    "early return, third-party assumptions and where they are encoded, unmodelled code)",
+    "assumed: tokio's cooperative budget never interrupts a poll (inside a tokio task a poll may return Pending early, "
+    "after self-waking, once 128 budget units are used; the harness polls outside a task, so statements of the form "
+    "'a poll that returned Pending at T processed everything due at T' hold up to such self-woken re-polls)",
+    "assumed: request/response buffer sizes >= 1 (tokio's mpsc::channel(0) panics: a configuration precondition); one "
+    "integer-millisecond clock stands for std's and tokio's clocks (the harness keeps them equal)",
+]
+CLIENT_TB = AUDIT_TB + [
     "modelled, not verified: tokio bounded/unbounded mpsc, tokio oneshot, tokio-util DelayQueue "
     "(ms granularity), futures Fuse, as sequential data structures (Client.v header)",
     "the transport is universally quantified in the theorems (any state type, any behaviour); the "
